@@ -54,7 +54,15 @@ def run_case(case):
     I.set_order(I.default_order(sub))
     sm = B.build(sub)
     sm.project.unit_timedelta = datetime.timedelta(seconds=case["sub_unit"])
-    path = scratch_file("sub")
+    if case["i"] % 2 == 0:
+        # result files are commonly rewritten in place: every second case of a worker process uses the
+        # same path again (with another sub-project's result, or a refused one, behind it)
+        from .history import SCRATCH
+        os.makedirs(SCRATCH, exist_ok=True)
+        path = os.path.join(SCRATCH, "vf_sub_rewritten_%d.json" % os.getpid())
+        res.count("C20.result_path_used_again")
+    else:
+        path = scratch_file("sub")
     try:
         if case["kind"] == "refusal":
             if case["refusal"] == "failed":
